@@ -61,6 +61,8 @@ func (c *Initiator) Serve() error {
 	defer c.handler.CloseErrorChan()
 
 	stopHandler := sync.Once{}
+	// forwarded is closed once everything the connection had read has been handed to the handler
+	forwarded := make(chan struct{})
 
 	eg.Go(func() error {
 		defer c.Close()
@@ -68,6 +70,12 @@ func (c *Initiator) Serve() error {
 		err := c.conn.serve()
 		if err != nil {
 			err = fmt.Errorf("%s: %w", err, ErrConnClosed)
+			// the messages that arrived complete before the connection ended belong to the handler:
+			// it is stopped only after they have been handed over (unless the client itself is closed)
+			select {
+			case <-forwarded:
+			case <-c.ctx.Done():
+			}
 			defer stopHandler.Do(func() {
 				c.handler.StopWithError(err)
 			})
@@ -129,7 +137,10 @@ func (c *Initiator) Serve() error {
 
 			case msg, ok := <-c.conn.Reader():
 				if !ok {
-					continue
+					close(forwarded)
+					<-c.ctx.Done()
+
+					return nil
 				}
 				c.handler.ServeIncoming(msg)
 			}
